@@ -60,7 +60,8 @@ RULE = (
     "float64 as the default dtype; inputs requiring grad followed by backward; one tensor object used as "
     "mean and std, and handed to accumulate() twice. "
     "Long instances (horizon / frame axis across plausible blocking thresholds): returns for T in "
-    "{1025, 2049, 3000, 4097}, N=3, gamma in {0.9, 0.99, 1.002} (float64) and {0.99, 1.002} (float32) plus "
+    "{1025, 2049, 3000, 4097}, N=3, gamma in {0.9, 0.99, 1.002, 0.5, 2} (float64) and {0.99, 1.002, 0.5, 0.9, 2} (float32) - "
+    "including factors whose T-th power under- or overflows the dtype; every step with a representable return is judged - plus "
     "gamma 0 and 1, both layouts, functional and module, against the backward "
     "recursion in float64; MVN with 70,001 frames in one accumulate() between 1,500 small calls; deltas of "
     "a 5000-step sequence, 4 pad modes. "
@@ -1211,10 +1212,15 @@ def _run_large(ctx, spec, tier, seed):
 
 # ================================================= long instances along every axis (item 6)
 LONG_T = (1025, 2049, 3000, 4097)  # just past 2^10, 2^11, 2^12 and one that is no power of two
-# (gamma, dtype, relative tolerance): gamma**T must stay a normal number of the dtype (the library
-# forms gamma**t' / gamma**t; under/overflowing powers are outside the alphabet, DESIGN sec. 4)
+# (gamma, dtype, relative tolerance).  The first five keep gamma**T a normal number of the dtype; the others do NOT
+# (0.5**1025 and 0.9**1025 underflow float32, 0.5**2049 underflows float64, 2**T overflows both): "all discount factors
+# including ... values above 1" - every step whose own return is representable is judged (round 6; an earlier version
+# of this pass kept to representable powers and so stayed silent on F51)
 LONG_GAMMAS = ((0.9, "float64", 1e-9), (0.99, "float64", 1e-9), (1.002, "float64", 1e-9),
-               (0.99, "float32", 5e-4), (1.002, "float32", 5e-4))
+               (0.99, "float32", 5e-4), (1.002, "float32", 5e-4),
+               (0.5, "float32", 5e-4), (0.9, "float32", 5e-4), (0.5, "float64", 1e-9),
+               (2.0, "float32", 5e-4), (2.0, "float64", 1e-9))
+REPRESENTABLE = {"float32": 1e30, "float64": 1e300}  # steps whose return magnitude exceeds this are not judged
 
 
 def _long_return_case(ctx, T, N, gamma, dtname, tol, batch_first, api, seed):
@@ -1227,7 +1233,8 @@ def _long_return_case(ctx, T, N, gamma, dtname, tol, batch_first, api, seed):
             "batch_first": batch_first, "api": api, "seed": seed}
     ctx.case(1, 1)
     sig = {"api": "time_distributed_return", "long_horizon": True, "batch_first": batch_first, "gamma": gamma,
-           "dtype": dtname}
+           "dtype": dtname, "gamma_pow_T_leaves_range": gamma > 0 and gamma != 1 and abs(T * math.log(gamma)) > (
+               85.0 if dtname == "float32" else 690.0)}
     r = torch.tensor(cols, dtype=DTYPES[dtname])
     r = r if batch_first else r.t().contiguous()
     rc = r.clone()
@@ -1248,7 +1255,10 @@ def _long_return_case(ctx, T, N, gamma, dtname, tol, batch_first, api, seed):
     for n in range(N):
         exp = O.returns(cols[n], gamma)
         mag = O.returns([abs(v) for v in cols[n]], gamma)
-        bad = [t for t in range(T) if not abs(got[n][t] - exp[t]) <= tol * (1.0 + mag[t])]
+        bad = [t for t in range(T) if mag[t] < REPRESENTABLE[dtname]
+               and not abs(got[n][t] - exp[t]) <= tol * (1.0 + mag[t])]
+        ctx.count("long_return_steps_not_judged (return beyond the dtype's range)",
+                  sum(1 for t in range(T) if not mag[t] < REPRESENTABLE[dtname]))
         if bad:
             t = bad[-1]
             ctx.violation(dict(sig, symptom="wrong-return"), case,
@@ -1256,7 +1266,7 @@ def _long_return_case(ctx, T, N, gamma, dtname, tol, batch_first, api, seed):
                            "expected_at_last_wrong": exp[t], "observed_at_last_wrong": got[n][t],
                            "magnitude": mag[t]})
             return
-    ctx.outcome([T, gamma, round(exp[0] * 16)])
+    ctx.outcome([T, gamma, round(exp[-2] * 16)])
 
 
 def _run_long(ctx, spec, tier, seed):
